@@ -5,10 +5,13 @@ import drivers.c16  # noqa: F401
 PROP = "C16"
 LEVEL = "proof"
 LEVEL_TEXT = ("Contract-based deductive proof, for all sizes / thread counts / block sizes, of the partition arithmetic and of "
-              "13 real functions of quimb/core.py (11 threaded kernels): exact tiling, per-rank write frame, row value a "
-              "function of the inputs, subscripts in bounds, no division by zero; schedule independence follows as a "
-              "lemma over those contracts. Wrappers and worker-based routines are covered by run-time contracts on a "
-              "bounded grid (labelled bounded).")
+              "23 real functions of quimb/core.py (11 threaded kernels, maybe_multithread, 9 public wrappers): exact tiling, "
+              "per-rank write frame, row value a function of the inputs, subscripts in bounds, no division by zero; schedule "
+              "independence follows as a lemma over those contracts. For the operators built from terms the rank loop of each "
+              "of the 8 configcore kernels is read from the source and proved to partition the serial loop (sound, disjoint, "
+              "cover) for all extents and worker counts, with pass-through and rank-submission obligations on the dispatchers "
+              "and on builder.py. par_reduce, gen/rand and numerical agreement of every wrapper with numpy are run-time "
+              "contracts on a bounded grid (labelled bounded).")
 LEVEL_NOTE = ("Trusted: executor's reading of the Python subset, ints mathematical / floats real, numba == python text, "
               "ThreadPoolExecutor runs each task once, no aliasing of outputs with inputs, z3 soundness.")
 TECHNIQUE = "VCs from the real source (ast -> z3) with loop invariants and callee contracts; run-time contracts as bounded stand-in"
